@@ -2732,8 +2732,17 @@ CaseExtMovd:
       goto CaseExtRm;
 
     case InstDB::kEncodingExtRm_ZDI:
-      if (ASMJIT_UNLIKELY(!o2.is_none() && !is_implicit_mem(o2, Gp::kIdDi)))
-        goto InvalidInstruction;
+      if (!o2.is_none()) {
+        if (ASMJIT_UNLIKELY(!is_implicit_mem(o2, Gp::kIdDi)))
+          goto InvalidInstruction;
+
+        // The explicit [zdi] operand selects the segment and the address size.
+        rm_info = mem_info_table[o2.as<Mem>().base_and_index_types()];
+        if (ASMJIT_UNLIKELY(rm_info & kX86MemInfo_Index))
+          goto InvalidInstruction;
+        writer.emit_segment_override(o2.as<Mem>().segment_id());
+        writer.emit_address_override((rm_info & _address_override_mask()) != 0);
+      }
 
       isign3 &= 0x3F;
       goto CaseExtRm;
@@ -3082,8 +3091,17 @@ CaseVexMri:
       break;
 
     case InstDB::kEncodingVexRm_ZDI:
-      if (ASMJIT_UNLIKELY(!o2.is_none() && !is_implicit_mem(o2, Gp::kIdDi)))
-        goto InvalidInstruction;
+      if (!o2.is_none()) {
+        if (ASMJIT_UNLIKELY(!is_implicit_mem(o2, Gp::kIdDi)))
+          goto InvalidInstruction;
+
+        // The explicit [zdi] operand selects the segment and the address size.
+        rm_info = mem_info_table[o2.as<Mem>().base_and_index_types()];
+        if (ASMJIT_UNLIKELY(rm_info & kX86MemInfo_Index))
+          goto InvalidInstruction;
+        writer.emit_segment_override(o2.as<Mem>().segment_id());
+        writer.emit_address_override((rm_info & _address_override_mask()) != 0);
+      }
 
       isign3 &= 0x3F;
       goto CaseVexRm;
